@@ -40,6 +40,17 @@ def handle (j : Json) : Except String Json := do
   let headers ← match j.getObjVal? "headers" with
     | .ok (Json.arr a) => a.toList.mapM parseHeader
     | _ => pure []
+  -- Implementation-only cases (same rule as harness/src/bin/c09.rs): the model lower-cases ASCII only — exact for paths
+  -- and queries (theorem lowercased_text_ascii), not for hosts and header values, where Rust's Unicode to_lowercase sees
+  -- the raw text — and it has no host matcher: a rule with a marker-free host is judged by the Rust-side oracles only.
+  let rhostStatic : Bool := match j.getObjVal? "rhost" with
+    | .ok (Json.str h) => !h.contains '@'
+    | _ => false
+  let nonAscii (b : Bytes) : Bool := b.any (· ≥ 128)
+  let implOnly := rhostStatic || (cfg.ignoreHostCase && (host.map nonAscii).getD false) ||
+    (cfg.ignoreHeaderCase && headers.any (fun h => nonAscii h.2))
+  if implOnly then
+    return Json.mkObj [("tags", Json.arr #["impl-only"])]
   let r1 := fromConfig cfg u
   let r2 := fromConfig cfg u2
   let rk := ruleKey cfg u
